@@ -164,6 +164,9 @@ def run(rep, tier):
     rows = [
         Row("len-multiple", R, r"^panic!(panic|assert)@$", "D4", "precondition: the input consists of whole instructions "
             "(that this is the only panic outside the per-instruction loop, taken exactly when 8 does not divide the length, is R15.e)", cites=("R15.e",)),
+        Row("scan-ends-at-end", R, r"^panic!debug_assert(_eq)?@\[.*Mul\(mut<usize>,8\).*(<>|==|<=).*\[T\]::len\(&\*arg1<&\[u8\]>\).*\]$", "D4",
+            "precondition: whole instructions and wide loads followed by their second half - the scan advances by one slot "
+            "(two for a wide load) from 0 and so ends exactly at the end of the input"),
         Row("unknown-opcode", R, r"^panic!panic@u8!in\[\d+ values\]$", "D4", "precondition: supported opcodes only"),
         Row("call-kind", R, r"^panic!panic@u8=133;u8!in\[0,1\]$", "D4", "precondition: call kinds 0/1 only"),
         Row("fetch", R, r"^precond:ebpf::get_insn<-", "D4",
@@ -179,13 +182,17 @@ def run(rep, tier):
     ln = ("call", "len", (PROG,), 64)
     notmult = T.cmp("ne", 64, T.op("urem", 64, ln, T.K(64, 8)), T.K(64, 0))
     pan = []
+    accepted = [[T.show(notmult)], [T.show(T.lnot(T.cmp("eq", 64, T.op("urem", 64, ln, T.K(64, 8)), T.K(64, 0))))]]
     for v, st in outs:
         if not st.feasible:
             continue
         if (st.exit is not None and st.exit[0] == "panic") or any(e[0] == "call" and isinstance(e[1], str) and e[1].startswith("core::panicking") for e in st.effects):
-            cs = [models.canon(c, pcn, extra) for c in st.conds]
-            pan.append(sorted(T.show(c) for c in cs))
-    oke = pan == [[T.show(notmult)]] or pan == [[T.show(T.lnot(T.cmp("eq", 64, T.op("urem", 64, ln, T.K(64, 8)), T.K(64, 0))))]]
+            cs = sorted(T.show(models.canon(c, pcn, extra)) for c in st.conds)
+            if models._assertion_failure(st) and cs not in accepted:
+                continue        # other assertions are sites of the inventory (R15.d); an assertion that states the
+                                # length condition itself is the prelude panic written as assert!
+            pan.append(cs)
+    oke = len(pan) == 1 and pan[0] in accepted
     rep.ob(re_, "prelude", oke, "panicking paths of to_insn_vec outside the loop", expected=[[T.show(notmult)]], found=pan[:3])
     rep.trust("rustc front end / MIR / const-eval", "alloc::fmt formatting of integers", "byteorder decoding")
     rep.assume("rendered text vs assembler syntax is decided under C16")
